@@ -67,6 +67,88 @@ theorem load_is_pure (fs : List PlatformFile) (hist hist' : List LoadEvent) (fil
 that holds a map, slice, pointer or sync primitive or that a function assigns (go/ast fact) -/
 theorem load_path_has_no_package_state : packageState = [] := by decide +kernel
 
+/-! ## user options layered on a definition -/
+
+/-- options that assign different fields commute -/
+theorem applyOpt_comm (c : DriverCfg) (a b : CfgOpt) (h : a.field ≠ b.field) :
+    applyOpt (applyOpt c a) b = applyOpt (applyOpt c b) a := by
+  cases a <;> cases b <;> first | rfl | (exact absurd rfl h)
+
+/-- `effective_config_user_over_definition`: the effective configuration is the definition's
+options followed by the user's — (1) it is the user's list applied to what the definition
+configured; (2) a field the user sets last to `v` holds `v` whatever the definition (and the
+earlier user options) said; (3) a user option is indifferent to the ORDER of the user options that
+assign other fields: moving it across any block of such options changes nothing. -/
+theorem effective_config_user_over_definition (defn user : List CfgOpt) :
+    effectiveCfg defn user = applyAll (applyAll {} defn) user
+    ∧ (∀ (o : CfgOpt) (pre : List CfgOpt), user = pre ++ [o] →
+        effectiveCfg defn user = applyOpt (applyAll {} (defn ++ pre)) o)
+    ∧ (∀ (o : CfgOpt) (pre mid post : List CfgOpt), (∀ x ∈ mid, x.field ≠ o.field) →
+        effectiveCfg defn (pre ++ o :: mid ++ post) = effectiveCfg defn (pre ++ mid ++ o :: post)) := by
+  refine ⟨by simp [effectiveCfg, applyAll, List.foldl_append], ?_, ?_⟩
+  · intro o pre h
+    subst h
+    simp [effectiveCfg, applyAll, List.foldl_append]
+  · intro o pre mid post hmid
+    have key : ∀ (c : DriverCfg) (mid : List CfgOpt), (∀ x ∈ mid, x.field ≠ o.field) →
+        mid.foldl applyOpt (applyOpt c o) = applyOpt (mid.foldl applyOpt c) o := by
+      intro c mid
+      induction mid generalizing c with
+      | nil => intro _; rfl
+      | cons x t ih =>
+        intro h
+        simp only [List.foldl_cons]
+        rw [applyOpt_comm c o x (fun e => h x (by simp) e.symm)]
+        exact ih (applyOpt c x) (fun y hy => h y (by simp [hy]))
+    simp only [effectiveCfg, applyAll, List.foldl_append, List.foldl_cons, List.append_assoc]
+    rw [key _ mid hmid]
+
+/-- a user who replaces the privilege levels and the default level — in either order, with any
+options for other fields in between — gets a driver that constructs: no option is validated
+against the half-updated configuration -/
+theorem layered_levels_and_default_construct (defn mid : List CfgOpt) (l : List String) (s : String)
+    (hl : l ≠ []) (hs : s ≠ "") (hmid : ∀ x ∈ mid, x.field ≠ 0 ∧ x.field ≠ 1) :
+    cfgConstructs (effectiveCfg defn (.levels l :: mid ++ [.default s])) = true
+    ∧ cfgConstructs (effectiveCfg defn (.default s :: mid ++ [.levels l])) = true := by
+  have keep : ∀ (c : DriverCfg) (mid : List CfgOpt), (∀ x ∈ mid, x.field ≠ 0 ∧ x.field ≠ 1) →
+      (mid.foldl applyOpt c).levels = c.levels ∧ (mid.foldl applyOpt c).defaultLevel = c.defaultLevel := by
+    intro c mid
+    induction mid generalizing c with
+    | nil => intro _; exact ⟨rfl, rfl⟩
+    | cons x t ih =>
+      intro h
+      have hx := h x (by simp)
+      have := ih (applyOpt c x) (fun y hy => h y (by simp [hy]))
+      simp only [List.foldl_cons]
+      rw [this.1, this.2]
+      cases x <;> first | exact ⟨rfl, rfl⟩ | (exact absurd rfl hx.1) | (exact absurd rfl hx.2)
+  have hl' : l.isEmpty = false := by cases l <;> simp_all
+  constructor
+  · simp only [effectiveCfg, applyAll, List.foldl_append, List.foldl_cons, List.foldl_nil]
+    generalize hc : applyOpt (List.foldl applyOpt {} defn) (.levels l) = c1
+    have h1 : c1.levels = l := by rw [← hc]; rfl
+    have k := keep c1 mid hmid
+    have e1 : (applyOpt (mid.foldl applyOpt c1) (.default s)).defaultLevel = s := rfl
+    have e2 : (applyOpt (mid.foldl applyOpt c1) (.default s)).levels = (mid.foldl applyOpt c1).levels := rfl
+    unfold cfgConstructs
+    rw [e1, e2, k.1, h1, hl']
+    simp [hs]
+  · simp only [effectiveCfg, applyAll, List.foldl_append, List.foldl_cons, List.foldl_nil]
+    generalize hc : applyOpt (List.foldl applyOpt {} defn) (.default s) = c1
+    have h1 : c1.defaultLevel = s := by rw [← hc]; rfl
+    have k := keep c1 mid hmid
+    have e1 : (applyOpt (mid.foldl applyOpt c1) (.levels l)).levels = l := rfl
+    have e2 : (applyOpt (mid.foldl applyOpt c1) (.levels l)).defaultLevel = (mid.foldl applyOpt c1).defaultLevel := rfl
+    unfold cfgConstructs
+    rw [e1, e2, k.2, h1, hl']
+    simp [hs]
+
+example : (∀ x ∈ [CfgOpt.port 2222, .failedWhen ["x"], .transportType "telnet"], x.field ≠ 0 ∧ x.field ≠ 1)
+    ∧ effectiveCfg [.levels ["exec", "privilege-exec"], .default "privilege-exec", .failedWhen ["% Invalid"]]
+        [.levels ["u-exec", "u-priv"], .port 2222, .default "u-priv"]
+      = { levels := ["u-exec", "u-priv"], defaultLevel := "u-priv", failedWhen := ["% Invalid"], port := 2222 } := by
+  decide
+
 /-! ## per definition (defaults and merged variants) -/
 
 /-- the declared driver type is one `setDriver` knows -/
